@@ -11,8 +11,10 @@ LEVEL_TEXT = ('Held on the executions observed: around every outermost run/call/
               'Driven over the termination-mode matrix (incl. KeyboardInterrupt/GeneratorExit/custom BaseException and internal '
               'failures while building the feedback) x entry x tracer x threaded x history, and over random multi-execution '
               'histories in one sandbox.')
-LEVEL_NOTE = ('Modules first imported during the call are counted, not judged. Timeouts are exercised by C14 with the same '
-              'snapshot monitor. Trusted: the snapshot (identity comparison) itself.')
+LEVEL_NOTE = ('Modules first imported during the call are counted, not judged. Time limits: every non-terminating program x entry x '
+              'tracer here, plus programs whose clean-up after the interrupt goes on (until the harness lets it end) while the next '
+              'grading runs; the interleavings of the two threads inside pedal are C14\'s. A measurement of coverage.py that is still '
+              'on its stack once no student thread is alive counts as trace state left behind. Trusted: the snapshot itself.')
 RULE = sc.__doc__.split('\n')[0] + ' Cells as in C04 (mode, entry, tracer, threaded, position) plus sequences of 2-6 executions in one sandbox; distinct = distinct cell/sequence.'
 ASSUMPTIONS = ['identity of the listed process-global objects is the borrowed state the statement names']
 SHARDS = {'quick': 16, 'thorough': 32}
